@@ -30,8 +30,13 @@ DAY = 86400
 T0 = 1330387200      # 2012-02-28 00 UTC
 
 
-def dataset(seed, with_clim):
+def dataset(seed, with_clim, near=False):
+    """near=True: hourly initialisation times and consecutive 7-digit station ids, i.e. coordinates that differ by less
+    than any plausible relative tolerance (selection is by exact value)"""
     locs = gen.std_locs(4, seed)          # ids 100+.., lat 40,42.5,45,47.5 ; lon -120.. ; elev 1000,1250,1500,1750
+    H6 = 3600 if near else 6 * 3600
+    if near:
+        locs = [(1000231 + i,) + tuple(l[1:]) for i, l in enumerate(locs)]
     times = [T0, T0 + H6, T0 + 2 * H6, T0 + DAY, T0 + DAY + H6, T0 + DAY + 2 * H6]
     leads = [0.0, 6.0, 12.0]
     vals = gen.unique_values(seed, 400)
@@ -63,7 +68,7 @@ def dataset(seed, with_clim):
     return A, B, clim, locs, times
 
 
-def option_values(locs, times):
+def option_values(locs, times, near=False):
     ids = [l[0] for l in locs]
     lats = [l[1] for l in locs]
     lons = [l[2] for l in locs]
@@ -73,7 +78,7 @@ def option_values(locs, times):
     return {
         "-t": [[times[0], times[3]], [times[0] + 1], [times[4], times[1], times[1]]],
         "-d": [[d0], [d1, d0], [cal.add_days(d0, 5)]],
-        "-tod": [[0], [6, 12], [18]],
+        "-tod": [[0], [1, 2] if near else [6, 12], [18]],
         "-o": [[0.0], [12.0, 6.0, 24.0], [99.0]],
         "-l": [[ids[0], ids[2]], [ids[3]], [999]],
         "-lx": [[ids[0]], list(ids), [999]],
@@ -110,8 +115,9 @@ def check_selection(ctx_fail, ref, data_times, data_leads, data_locs, tag):
 def h_api(ctx):
     seed = core.seed()
     with_clim = ctx.choose("clim", (False, True), free=True)
-    A, B, clim, locs, times = dataset(seed, with_clim)
-    ov = option_values(locs, times)
+    near = bool(ctx.params.get("near"))
+    A, B, clim, locs, times = dataset(seed, with_clim, near)
+    ov = option_values(locs, times, near)
     kw = {}
     chosen = {}
     for o in OPTS:
@@ -350,6 +356,13 @@ def run(tier, only=None):
                                      rule="one execution = one option combination on Data(); selected times/leadtimes/locations and every request "
                                           "compared with the reference; non-trivial = the selection is a strict subset",
                                      required_flags=("empty", "obsrange"), wall=time.time() - t0))
+    if only in (None, "api-near"):
+        t0 = time.time()
+        kk = 2 if tier == "quick" else 3
+        st = explore.explore(h_api, mode="dev", k=kk, params={"near": True}, repo_root=core.REPO, time_cap=1500)
+        subs.append(core.Sub.from_e1("api-near", st, bound="dev(%d) over the same options on a dataset with hourly initialisation times and consecutive 7-digit station ids" % kk,
+                                     rule="as api; the coordinates differ by less than 1e-5 relative, so any tolerance in the selection or matching shows",
+                                     required_flags=("empty", "obsrange"), wall=time.time() - t0))
     for name, with_clim, depth in (("lattice", False, 3 if tier == "quick" else 4), ("lattice-clim", True, 2 if tier == "quick" else 3)):
         if only not in (None, name):
             continue
@@ -364,8 +377,8 @@ def run(tier, only=None):
 
 
 def replay(rec):
-    if rec["subcheck"] == "api":
-        ctx, _ = explore.replay(h_api, rec["choices"], None, repo_root=core.REPO)
+    if rec["subcheck"] in ("api", "api-near"):
+        ctx, _ = explore.replay(h_api, rec["choices"], None, params={"near": rec["subcheck"] == "api-near"}, repo_root=core.REPO)
         return [v.locus for v in ctx.violations if v.locus == rec["signature"][1]]
     with_clim = rec["subcheck"] == "lattice-clim"
     m = Lattice(rec.get("seed", core.seed()), with_clim)
